@@ -93,7 +93,7 @@ theorem errOp_char {s : St V R} (hI : Inv s) (asStr : V → Option (List Char)) 
 theorem expireOp_char {s : St V R} (hI : Inv s) (tid : Nat) :
     ((∀ x ∈ s.timers, x.1 ≠ tid) ∧ expireOp s tid = s) ∨
     (∃ σ, (tid, σ) ∈ s.timers ∧ (σ, (⟨tid, some tid⟩ : Pending)) ∈ s.pending ∧
-      expireOp s tid = complete s σ tid (.timeOut C08Client.timeoutText.toList)) := by
+      expireOp s tid = complete s σ tid (.timeOut localText)) := by
   cases hf : s.timers.find? (fun e => e.1 == tid) with
   | none =>
     refine Or.inl ⟨?_, by simp [expireOp, hf]⟩
